@@ -28,6 +28,7 @@ def ravel_copy(x):
 
 @register
 class CheckFitInput(Contract):
+    functional = True
     target = BU + ":check_fit_input"
     stubs = {"check_coordinates": BU + ":check_coordinates"}
     inline = ("check_data",)
